@@ -73,7 +73,7 @@ CLAIMED = {
         note="SPARQL terms are IRIs, plain strings and small integers under a fixed predicate schema; updates are INSERT / DELETE DATA, DELETE WHERE (1-2 patterns), DELETE-INSERT-WHERE with generated templates and CLEAR; property paths, sub-queries, GRAPH, other aggregates and CONSTRUCT / ASK are not generated."),
     "C20": dict(
         engine="conc", category="model_checking", design_ref="DESIGN.md §7 C20",
-        technique="TLA+ specs RdfConc / TxConc / BufMgr / LpgConc (one action per critical section) and LpgLocks (one action per lock acquisition) model-checked by TLC over all interleavings; real threads run under a yield-point controller (cfg grafeo_verif) with enumerated, random and TLC-counterexample schedules; recorded schedules validated against the specs by TLC; free-running threads (commit rounds, begin/commit/gc loops, LpgStore program rounds) judged by FcwHistory.tla / LpgConc LinObs; looping mutator pairs under a watchdog for deadlocks",
+        technique="TLA+ specs RdfConc / TxConc / BufMgr / LpgConc / EdgeTypes (one action per critical section) and LpgLocks (one action per lock acquisition) model-checked by TLC over all interleavings; real threads run under a yield-point controller (cfg grafeo_verif) with enumerated, random and TLC-counterexample schedules; recorded schedules validated against the specs by TLC; free-running threads (commit rounds, begin/commit/gc loops, LpgStore program rounds) judged by FcwHistory.tla / LpgConc LinObs; looping mutator pairs under a watchdog for deadlocks",
         text="TLC explores every interleaving of 2-3 threads x 2-4 operations at critical-section granularity (index/primary agreement and linearizability of the triple store, first-committer-wins and dense unique commit epochs of the transaction manager, hard limit and zero-at-end of the memory manager, linearizability / unique ids / index agreement of the property-graph store mutators, deadlock freedom of their lock scopes) and finds the counterexample schedules of the as-is switches; the same programs run on real threads under the controller, and every recorded schedule with its return values and quiescent projection is validated against the spec.",
         note="Granularity = yield points between critical sections; sequential consistency assumed. LpgLocks scopes are hand-transcribed (bound to the code by the looping stress only). Tiered-storage variants, catalog, WAL, query cache, statistics refresh and HNSW are not modelled (sub-claims uncovered)."),
     "C01": dict(
